@@ -3,6 +3,7 @@ package synchronizer
 
 import (
 	"context"
+	"fmt"
 	"time"
 
 	"github.com/relab/hotstuff/core"
@@ -210,8 +211,8 @@ func (s *Synchronizer) OnRemoteTimeout(timeout hotstuff.TimeoutMsg) {
 	currView := s.state.View()
 	defer s.timeouts.deleteOldViews(currView)
 
-	if err := s.auth.Verify(timeout.ViewSignature, timeout.View.ToBytes()); err != nil {
-		s.logger.Infof("View timeout signature could not be verified: %v", err)
+	if err := s.verifyTimeoutSignatures(timeout); err != nil {
+		s.logger.Infof("Timeout message could not be verified: %v", err)
 		return
 	}
 	s.logger.Debug("OnRemoteTimeout (advancing view): ", timeout)
@@ -234,6 +235,32 @@ func (s *Synchronizer) OnRemoteTimeout(timeout hotstuff.TimeoutMsg) {
 
 	s.logger.Debugf("OnRemoteTimeout (second advance)")
 	s.advanceView(si)
+}
+
+// verifyTimeoutSignatures checks that the view signature, and with aggregate QCs the message signature,
+// are valid signatures of the sender itself. Anything else must not be collected: it would end up in the
+// timeout certificate or aggregate QC and make it unverifiable.
+func (s *Synchronizer) verifyTimeoutSignatures(timeout hotstuff.TimeoutMsg) error {
+	if !signedOnlyBy(timeout.ViewSignature, timeout.ID) {
+		return fmt.Errorf("view signature is not a signature of replica %d alone", timeout.ID)
+	}
+	if err := s.auth.Verify(timeout.ViewSignature, timeout.View.ToBytes()); err != nil {
+		return fmt.Errorf("view signature: %w", err)
+	}
+	if s.config.HasAggregateQC() {
+		if !signedOnlyBy(timeout.MsgSignature, timeout.ID) {
+			return fmt.Errorf("message signature is not a signature of replica %d alone", timeout.ID)
+		}
+		if err := s.auth.Verify(timeout.MsgSignature, timeout.ToBytes()); err != nil {
+			return fmt.Errorf("message signature: %w", err)
+		}
+	}
+	return nil
+}
+
+// signedOnlyBy returns true if sig names exactly one participant, id.
+func signedOnlyBy(sig hotstuff.QuorumSignature, id hotstuff.ID) bool {
+	return sig != nil && sig.Participants().Len() == 1 && sig.Participants().Contains(id)
 }
 
 // OnNewView handles an incoming consensus.NewViewMsg
